@@ -177,8 +177,8 @@ def foreign_traces(ctx, art):
 def race_lines(ctx):
     if ctx.tier == "thorough":
         return ["meet %d 400 40000" % ctx.seed, "meet %d 200 1200" % (ctx.seed + 1), "bwmeet %d 1500 400" % ctx.seed,
-                "race %d 6000 6" % ctx.seed]
-    return ["meet %d 60 40000" % ctx.seed, "bwmeet %d 200 400" % ctx.seed, "race %d 800 4" % ctx.seed]
+                "race %d 6000 6" % ctx.seed, "stallwrite %d 40" % ctx.seed]
+    return ["meet %d 60 40000" % ctx.seed, "bwmeet %d 200 400" % ctx.seed, "race %d 800 4" % ctx.seed, "stallwrite %d 8" % ctx.seed]
 
 
 def race_run(ctx, exe, lines, tag="race"):
